@@ -29,7 +29,10 @@ pub enum Node {
     Elem(Elem),
     /// character data between two pieces of markup: value with references expanded and line ends
     /// normalised; `raw` = source span (empty for CDATA sections, whose content is literal)
-    Text { value: String, raw: String },
+    Text {
+        value: String,
+        raw: String,
+    },
 }
 
 impl Elem {
@@ -66,7 +69,9 @@ impl Elem {
     pub fn text_raw(&self) -> Option<String> {
         match self.kids.as_slice() {
             [] => Some(String::new()),
-            [Node::Text { raw, value }] if !(raw.is_empty() && !value.is_empty()) => Some(raw.clone()),
+            [Node::Text { raw, value }] if !(raw.is_empty() && !value.is_empty()) => {
+                Some(raw.clone())
+            }
             _ => None,
         }
     }
@@ -85,22 +90,42 @@ impl Elem {
 
 pub fn is_char(c: char) -> bool {
     let n = c as u32;
-    n == 9 || n == 10 || n == 13 || (0x20..=0xD7FF).contains(&n) || (0xE000..=0xFFFD).contains(&n) || (0x10000..=0x10FFFF).contains(&n)
+    n == 9
+        || n == 10
+        || n == 13
+        || (0x20..=0xD7FF).contains(&n)
+        || (0xE000..=0xFFFD).contains(&n)
+        || (0x10000..=0x10FFFF).contains(&n)
 }
 
 fn is_name_start(c: char) -> bool {
     let n = c as u32;
-    c == ':' || c == '_' || c.is_ascii_alphabetic()
-        || (0xC0..=0xD6).contains(&n) || (0xD8..=0xF6).contains(&n) || (0xF8..=0x2FF).contains(&n)
-        || (0x370..=0x37D).contains(&n) || (0x37F..=0x1FFF).contains(&n) || (0x200C..=0x200D).contains(&n)
-        || (0x2070..=0x218F).contains(&n) || (0x2C00..=0x2FEF).contains(&n) || (0x3001..=0xD7FF).contains(&n)
-        || (0xF900..=0xFDCF).contains(&n) || (0xFDF0..=0xFFFD).contains(&n) || (0x10000..=0xEFFFF).contains(&n)
+    c == ':'
+        || c == '_'
+        || c.is_ascii_alphabetic()
+        || (0xC0..=0xD6).contains(&n)
+        || (0xD8..=0xF6).contains(&n)
+        || (0xF8..=0x2FF).contains(&n)
+        || (0x370..=0x37D).contains(&n)
+        || (0x37F..=0x1FFF).contains(&n)
+        || (0x200C..=0x200D).contains(&n)
+        || (0x2070..=0x218F).contains(&n)
+        || (0x2C00..=0x2FEF).contains(&n)
+        || (0x3001..=0xD7FF).contains(&n)
+        || (0xF900..=0xFDCF).contains(&n)
+        || (0xFDF0..=0xFFFD).contains(&n)
+        || (0x10000..=0xEFFFF).contains(&n)
 }
 
 fn is_name_char(c: char) -> bool {
     let n = c as u32;
-    is_name_start(c) || c == '-' || c == '.' || c.is_ascii_digit() || n == 0xB7
-        || (0x300..=0x36F).contains(&n) || (0x203F..=0x2040).contains(&n)
+    is_name_start(c)
+        || c == '-'
+        || c == '.'
+        || c.is_ascii_digit()
+        || n == 0xB7
+        || (0x300..=0x36F).contains(&n)
+        || (0x203F..=0x2040).contains(&n)
 }
 
 fn is_space(c: char) -> bool {
@@ -228,7 +253,10 @@ impl<'a> P<'a> {
     }
     fn comment(&mut self) -> R<()> {
         // after `<!--`
-        let end = self.s[self.pos..].find("--").ok_or("unterminated-comment")? + self.pos;
+        let end = self.s[self.pos..]
+            .find("--")
+            .ok_or("unterminated-comment")?
+            + self.pos;
         self.pos = end + 2;
         if !self.eat(">") {
             return Err("double-hyphen-in-comment".into());
@@ -253,7 +281,10 @@ impl<'a> P<'a> {
     }
     fn xml_decl(&mut self) -> R<()> {
         // after `<?xml` + space
-        let end = self.s[self.pos..].find("?>").ok_or("unterminated-xml-declaration")? + self.pos;
+        let end = self.s[self.pos..]
+            .find("?>")
+            .ok_or("unterminated-xml-declaration")?
+            + self.pos;
         let body = self.s[self.pos..end].trim();
         if !(body.starts_with("version=\"1.") || body.starts_with("version='1.")) {
             return Err("bad-xml-declaration".into());
@@ -284,8 +315,15 @@ impl<'a> P<'a> {
         macro_rules! flush {
             () => {
                 if has_text {
-                    let raw = if cdata_in_run { String::new() } else { self.s[raw_from..self.pos].to_string() };
-                    kids.push(Node::Text { value: std::mem::take(&mut val), raw });
+                    let raw = if cdata_in_run {
+                        String::new()
+                    } else {
+                        self.s[raw_from..self.pos].to_string()
+                    };
+                    kids.push(Node::Text {
+                        value: std::mem::take(&mut val),
+                        raw,
+                    });
                 }
                 has_text = false;
                 cdata_in_run = false;
@@ -354,7 +392,11 @@ impl<'a> P<'a> {
         loop {
             let sp = self.skip_space();
             if self.eat("/>") {
-                return Ok(Elem { name, attrs, kids: vec![] });
+                return Ok(Elem {
+                    name,
+                    attrs,
+                    kids: vec![],
+                });
             }
             if self.eat(">") {
                 break;
@@ -372,7 +414,11 @@ impl<'a> P<'a> {
             if attrs.iter().any(|a| a.name == an) {
                 return Err("duplicate-attribute".into());
             }
-            attrs.push(Attr { name: an, value, raw });
+            attrs.push(Attr {
+                name: an,
+                value,
+                raw,
+            });
         }
         let kids = self.content()?;
         if !self.eat("</") {
@@ -444,7 +490,11 @@ pub fn unbound_prefixes(e: &Elem) -> Vec<String> {
         }
         let mut check = |qn: &str, out: &mut Vec<String>| {
             if let Some((p, _)) = qn.split_once(':') {
-                if p != "xml" && p != "xmlns" && !scope.iter().any(|s| s == p) && !out.iter().any(|s| s == p) {
+                if p != "xml"
+                    && p != "xmlns"
+                    && !scope.iter().any(|s| s == p)
+                    && !out.iter().any(|s| s == p)
+                {
                     out.push(p.to_string());
                 }
             }
@@ -506,7 +556,9 @@ pub fn selftest() -> Result<(), String> {
     if r.attr("b").unwrap().value != " x y z\t\n " || r.text() != "p\nq\nr\r" {
         return Err(format!("selftest: normalisation: {r:?}"));
     }
-    if unbound_prefixes(&parse_document("<a j:x=\"1\"><b xmlns:k=\"u\" k:y=\"2\"/></a>").unwrap()) != vec!["j".to_string()] {
+    if unbound_prefixes(&parse_document("<a j:x=\"1\"><b xmlns:k=\"u\" k:y=\"2\"/></a>").unwrap())
+        != vec!["j".to_string()]
+    {
         return Err("selftest: prefixes".into());
     }
     Ok(())
